@@ -17,7 +17,7 @@ extern ec_backend_t ec_backends_supported[] __attribute__((weak));
 extern int next_backend_desc __attribute__((weak));
 extern int is_invalid_fragment_header(fragment_header_t *header) __attribute__((weak));
 }
-void isal_reset(); long isal_injected_failures();
+void isal_reset(); long isal_injected_failures(); void isal_set_knobs(int clobber, int layout);
 
 const char *be_name(int be) {
     static const char *n[] = {"null", "jerasure_rs_vand", "jerasure_rs_cauchy", "flat_xor_hd", "isa_l_rs_vand", "shss",
@@ -108,6 +108,7 @@ void world_begin(World &W, const Json &plan) {
     set_env(W, false, "");
     g_bfail = BFail();
     isal_reset();
+    if (plan.has("isal")) isal_set_knobs(plan["isal"]["clobber"].in(1), plan["isal"]["layout"].in(0));   // fixed for the whole run
     if (&next_backend_desc) next_backend_desc = 0;   // every run starts from the same registry state
     W.baseline_live = own::live();
     seq_locks_enable(true);
@@ -295,7 +296,7 @@ struct Delivered {
     bool all_pristine = true;
     bool any_bad_consume = false;
     u64 pristine_mask = 0;  // indexes for which a pristine fragment was delivered
-    u64 valid_mask = 0;     // indexes delivered pristine (used by C20: pristine and not invalid)
+    u64 usable_mask = 0;    // pristine, or valid under the reference with index/sizes/checksum/payload equal to the original's (C20)
     bool all_pristine_or_invalid = true;
     bool sizes_sane = true;
 };
@@ -312,11 +313,20 @@ static Delivered deliver(World &W, const Obj &o, const Slot &s, const Json &dl) 
         bool pr = (b == o.orig[dev]);
         bool okc = b.size() >= ref::HDR && ref::accept_consume(b.data());
         if (!okc) D.any_bad_consume = true;
-        if (pr) { D.pristine_mask |= 1ULL << dev; }
+        if (pr) { D.pristine_mask |= 1ULL << dev; D.usable_mask |= 1ULL << dev; }
         else {
             D.all_pristine = false;
-            bool inv = b.size() >= ref::HDR && ref::invalid(I, b.data(), b.size());
-            if (!inv) D.all_pristine_or_invalid = false;
+            bool inv = b.size() < ref::HDR || ref::invalid(I, b.data(), b.size());
+            if (!inv) {
+                // valid but not byte-identical: still a legitimate member of the stripe if everything decode relies on is unchanged
+                const std::vector<u8> &og = o.orig[dev];
+                ref::Fields fa = ref::fields(b.data()), fb = ref::fields(og.data());
+                bool equiv = b.size() == og.size() && fa.idx == fb.idx && fa.size == fb.size && fa.bemeta == fb.bemeta && fa.origlen == fb.origlen &&
+                             fa.ct == fb.ct && fa.chksum0 == fb.chksum0 && fa.beid == fb.beid && fa.bever == fb.bever &&
+                             (b.size() == ref::HDR || memcmp(b.data() + ref::HDR, og.data() + ref::HDR, b.size() - ref::HDR) == 0);
+                if (equiv) { D.usable_mask |= 1ULL << dev; W.probe("deliver.valid-equivalent"); }
+                else D.all_pristine_or_invalid = false;
+            }
             if (okc) {
                 ref::Fields f = ref::fields(b.data());
                 // headers that lie about sizes make the library trust wrong lengths: outside every claimed oracle
@@ -552,7 +562,7 @@ static void op_get(World &W, const Json &op) {
             else if (D.any_bad_consume && rc == 0 && !exact) W.viol("C09", "decode/bad-header-consumed", "forced-check decode consumed a fragment with an unacceptable header");
             if (!D.any_bad_consume && D.sizes_sane && s.cfg.ct == ref::CT_CRC32 && force && D.all_pristine_or_invalid) {
                 // C20: every delivered fragment is either a pristine member of this stripe or fails validation
-                bool tol = within_tolerance(s.cfg, D.pristine_mask);
+                bool tol = within_tolerance(s.cfg, D.usable_mask);
                 W.probe("c20.judged");
                 if (rc == 0 && !exact) W.viol("C20", "safety/invalid-fragment-changed-result/" + std::string(be_name(s.cfg.be)), "forced-check decode returned success with bytes that differ from the original");
                 if (tol && rc != 0) W.viol("C20", "availability/valid-fragments-sufficient-but-refused/" + std::string(be_name(s.cfg.be)), "valid fragments alone are within tolerance but decode returned " + std::to_string(rc));
@@ -659,7 +669,11 @@ static void op_plan(World &W, const Json &op) {
     for (int v : op["R"].intvec()) { int x = ((v % n) + n) % n; if (seen.insert(x).second) R.push_back(x); }
     for (int v : op["X"].intvec()) { int x = ((v % n) + n) % n; if (seen.insert(x).second) X.push_back(x); }
     if (R.empty()) return;
-    std::vector<int> Rl = R, Xl = X; Rl.push_back(-1); Xl.push_back(-1);
+    std::vector<int> Rl = R, Xl = X;
+    // optional: the same index named twice (in both lists, or twice in one); the union is what counts
+    // (only an index of R repeated in X, the usage the project's own test relies on; never duplicates inside one list)
+    for (int v : op["dupX"].intvec()) { int x = ((v % n) + n) % n; if (std::count(R.begin(), R.end(), x) && !std::count(Xl.begin() + (long) X.size(), Xl.end(), x)) { Xl.push_back(x); W.fault("PLAN.overlapping-lists"); } }
+    Rl.push_back(-1); Xl.push_back(-1);
     int *Rp = (int *) thread_arena().place((u8 *) Rl.data(), Rl.size() * 4, Arena::RIGHT);
     int *Xp = (int *) thread_arena().place((u8 *) Xl.data(), Xl.size() * 4, Arena::RIGHT);
     std::vector<int> init(n + 1, 0x7e7e7e7e);
